@@ -269,6 +269,10 @@ package bgp
 //@   modifies l.*
 //@   loop 0 decreases len(data)
 //@   ensures err != nil ==> freshMsgErr(err)
+// from C04 (labelled NLRI): only the two reserved encodings (0x800000 and 0) are taken as a withdraw label and are
+// kept as read; every other 3-octet entry is pushed as the 20-bit label it carries
+//@   at-return requires len(l.Labels) == 1 && l.Labels[0] == label && (label == WITHDRAW_LABEL || label == ZERO_LABEL)
+//@   loop 0 step len(labels) == header(len(labels)) + 1 && labels[len(labels)-1] == label >> 4 && label != WITHDRAW_LABEL && label != ZERO_LABEL
 
 //@ func (*DefaultRouteDistinguisher).Len
 //@   inline
